@@ -121,6 +121,19 @@ func (e *Engine) havocState(initSt *State, li *loopInfo, hs *havocSet) *State {
 			continue // pointer layout ids are type-determined
 		}
 		st.heap[k] = e.M.node(MemNode{kind: mInit, sort: m.sort, uf: e.C.FreshFunc("Hl_"+k, []smt.Sort{bv64, bv64}, m.sort)})
+		// package-level variables are only written through their own identity: those the loop does not write keep their value
+		gids := make([]uint64, 0, len(e.globals))
+		for _, id := range e.globals {
+			gids = append(gids, id)
+		}
+		sort.Slice(gids, func(i, j int) bool { return gids[i] < gids[j] })
+		for _, id := range gids {
+			g := e.k64(id)
+			if _, written := hs.bases[k][g.ID]; written {
+				continue
+			}
+			st.heap[k] = e.M.node(MemNode{kind: mFrame, prev: st.heap[k], sort: m.sort, a0: g, src: m})
+		}
 	}
 	bkeys := make([]string, 0, len(hs.bases))
 	for k := range hs.bases {
@@ -199,6 +212,8 @@ func (e *Engine) collectWrites(head, out *State, entryStamp int, hs *havocSet) {
 				return a && b
 			case mAppend:
 				addBase(n.oBase) // in-place case writes behind the old slice; the other case is fresh storage
+				return walk(n.prev)
+			case mFrame:
 				return walk(n.prev)
 			default:
 				addBase(n.a0)
